@@ -114,7 +114,7 @@ pub fn scn_reset(o: &Opts, tr: &mut Tr, prop: &str) {
         let cfg = Cfg { zlib: r.gen(), level: [0u8, 1, 2, 6, 9][r.gen_range(0..5)], strat: r.gen_range(0..5),
                         wbits: [15u8, 15, 12, 9][r.gen_range(0..4)], api: "params" };
         let h = gen::data(kinds[i % kinds.len()], r.gen_range(0..40_000), &mut r);
-        let f = gen::data(kinds[(i + 3) % kinds.len()], r.gen_range(0..6000), &mut r);
+        let f = if i % 4 == 1 { gen::data("planted5000", r.gen_range(6000..20_000), &mut r) } else { gen::data(kinds[(i + 3) % kinds.len()], r.gen_range(0..6000), &mut r) };
         tr.case(&format!("rs-comp-{}-l{}-{}-w{}", i, cfg.level, STRATS[cfg.strat].0, cfg.wbits), prop, json!({"hist": h.len(), "follow": f.len()}));
         let mut a = cfg.make();
         // history: anything from nothing to a complete stream, possibly ending in an error state
